@@ -18,7 +18,7 @@ func vfH_c06_enc() {
 	pv := sh.ptr(v)
 	b2, e2 := Marshal(pv)
 	vfAssert((e1 == nil) == (e2 == nil), "value-vs-pointer-error-parity")
-	if e1 == nil && e2 == nil {
+	if e1 == nil && e2 == nil && !sh.noPtrParity {
 		vfAssert(string(b1) == string(b2), "value-vs-pointer-same-bytes")
 	}
 	vfCover("done")
@@ -85,4 +85,154 @@ func vfH_c06_cycle() {
 		vfAssert(err != nil, "map-cycle-is-an-error")
 	}
 	vfCover("done")
+}
+
+type jHeader map[string][]string
+
+type jDecAll struct {
+	S  map[string]string
+	L  jHeader
+	B  map[string]bool
+	I  map[string]any
+	R  map[string]RawMessage
+	N  jNested
+	Sl jSlices
+	P  jPtrs
+	T  jStrTag
+	A  []jBasic
+	M  jMaps
+}
+
+func c06Target(mode int) any {
+	switch mode {
+	case 0:
+		return new(map[string]string)
+	case 1:
+		return new(map[string][]string)
+	case 2:
+		return new(map[string]bool)
+	case 3:
+		return new(map[string]any)
+	case 4:
+		return new(map[string]RawMessage)
+	case 5:
+		return new(jHeader)
+	case 6:
+		return new(jNested)
+	case 7:
+		return new(jSlices)
+	case 8:
+		return new(jPtrs)
+	case 9:
+		return new(jStrTag)
+	case 10:
+		return new([]jBasic)
+	case 11:
+		return new(jMaps)
+	case 12:
+		return new(jIface)
+	case 13:
+		return new([2][]string)
+	case 14:
+		return new(*jNested)
+	case 15:
+		return new(jNumRaw)
+	}
+	return nil
+}
+
+// c06Doc: a valid document for target `mode` that drives its decoder through every member kind.
+func c06Doc(mode int) string {
+	switch mode {
+	case 0:
+		return `{"a":"x", "b":null}`
+	case 1, 5:
+		return `{"a":["x","y"], "b":null,"c":[]}`
+	case 2:
+		return `{"a":true, "b":false}`
+	case 3:
+		return `{"a":[1,{"b":null}], "c":"s"}`
+	case 4:
+		return `{"a":[1, 2], "b":"s"}`
+	case 6:
+		return `{"x":1,"Y":"y","z":2,"in":{"x":3},"pn":{"Y":"q"}}`
+	case 7:
+		return `{"L":[1,-2],"B":"AQI=","A":[3,4]}`
+	case 8:
+		return `{"c":1,"D":true,"p":-7}`
+	case 9:
+		return `{"e":"1","F":"-2","g":"true","s":"\"x\""}`
+	case 10:
+		return `[{"a":1,"b":"x"}, {"a":2}]`
+	case 11:
+		return `{"M":{"k":1},"n":{"-3":true}}`
+	case 12:
+		return `{"i":{"k":[true,null,"s"]}}`
+	case 13:
+		return `[["a"],["b","c"]]`
+	case 14:
+		return `{"x":1,"pn":null}`
+	case 15:
+		return `{"N":-1.5e3,"r":[1, {}]}`
+	}
+	return ""
+}
+
+// H06-dec: every byte string of vfLen bytes decoded into target vfMode: no panic / fault (engine monitors), an
+// invalid document is always an error.
+func vfH_c06_dec() {
+	b := vfBytes(vfLen)
+	for i := range b { // float parsing is an opaque stub without range errors
+		vfAssume(b[i] != 'e')
+		vfAssume(b[i] != 'E')
+	}
+	err := Unmarshal(b, c06Target(vfMode))
+	if !refValid(b) {
+		vfAssert(err != nil, "invalid-document-rejected")
+	}
+	if err == nil {
+		vfCover("accepted")
+	} else {
+		vfCover("rejected")
+	}
+}
+
+// H06-trunc: a valid document of the target cut at every offset, and with one byte at an arbitrary position replaced
+// by an arbitrary byte: never a panic; rejected whenever the result is not valid JSON; the intact document is accepted.
+func vfH_c06_trunc() {
+	doc := []byte(c06Doc(vfMode))
+	n := vfIntIn(0, len(doc))
+	b := append([]byte(nil), doc[:n]...)
+	mutated := false
+	if n > 0 && vfBool() {
+		pos := vfIntIn(0, n-1)
+		c := vfByte()
+		vfAssume(c != 'e' && c != 'E')
+		b[pos] = c
+		mutated = true
+	}
+	t := c06Target(vfMode)
+	var err error
+	if vfFlags == 0 {
+		err = Unmarshal(b, t)
+	} else {
+		_, err = Parse(b, t, ZeroCopy|DontMatchCaseInsensitiveStructFields)
+	}
+	if !mutated && n == len(doc) {
+		vfAssert(err == nil, "intact-document-accepted")
+		vfCover("intact")
+	}
+	if !mutated && n < len(doc) {
+		vfAssert(err != nil, "truncated-document-rejected")
+		vfCover("truncated")
+	}
+	if mutated && !refValid(b) {
+		vfAssert(err != nil, "corrupt-document-rejected")
+		vfCover("corrupt")
+	}
+}
+
+// warm-up (runs once before the per-path snapshot): builds the target's codec so that paths do not rebuild it
+func vfWarm_c06() {
+	Unmarshal([]byte("null"), c06Target(vfMode))
 }
